@@ -20,14 +20,18 @@ class Hang(Exception):
 def _alarm(signum, frame):
     raise Hang()
 
-signal.signal(signal.SIGALRM, _alarm)
+signal.signal(signal.SIGVTALRM, _alarm)
 
-def guarded(fn, seconds=2.0):
-    signal.setitimer(signal.ITIMER_REAL, seconds)
+def guarded(fn, seconds=3.0):
+    """watchdog for non-termination.  It counts the CPU time of THIS process (ITIMER_VIRTUAL), not wall-clock time: an
+    operation that does not terminate burns CPU, while a machine under load (many checks in parallel) or a suspended process
+    makes wall-clock time pass without the operation running - a wall-clock watchdog reported such a pause as 'did not
+    terminate' on unchanged code (thorough run under load, DESIGN 13.7)"""
+    signal.setitimer(signal.ITIMER_VIRTUAL, seconds)
     try:
         return fn()
     finally:
-        signal.setitimer(signal.ITIMER_REAL, 0)
+        signal.setitimer(signal.ITIMER_VIRTUAL, 0)
 
 # ---------------------------------------------------------------- forms
 def form_py(f):
